@@ -38,6 +38,17 @@ impl PduLoop {
     #[verifier::external_body]
     pub fn wake_sender(&self) { unimplemented!() }
 }
+/// ghost events of ONE function activation (R24, local log): a frame made Sendable / the transmit task woken
+pub enum PubEv { Published, Woken }
+impl PduLoop {
+    /// `wake_sender()` with the local ghost log: the transmit task is woken AFTER a frame has been made sendable - a wake-up
+    /// that comes first finds nothing to send, and the frame published afterwards waits for the next wake-up or its timeout
+    #[verifier::external_body]
+    pub fn wake_sender_l(&self, log: &mut Ghost<Seq<PubEv>>)
+        requires old(log)@.len() > 0, old(log)@.last() is Published
+        ensures final(log)@ == old(log)@.push(PubEv::Woken)
+    { unimplemented!() }
+}
 pub struct MainDevice { pub pdu_loop: PduLoop, pub timeouts: Timeouts, pub config: MainDeviceConfig }
 impl MainDevice {
     /// the loop's ghost configuration IS this MainDevice's configuration
@@ -69,11 +80,27 @@ impl CreatedFrame {
         requires timeout == pdu_loop.cfg_timeout@, retries == pdu_loop.cfg_retries@
         ensures r.sent@ == self.pdus@
     { unimplemented!() }
+    /// the same with the local ghost log
+    #[verifier::external_body]
+    pub fn mark_sendable_l(self, log: &mut Ghost<Seq<PubEv>>, pdu_loop: &PduLoop, timeout: LabeledTimeout, retries: usize) -> (r: FrameFut)
+        // C06: a frame waits for its response under the CONFIGURED PDU timeout and is re-sent the CONFIGURED number of times
+        // (the real mark_sendable stores exactly what it is given: unit created_frame)
+        requires timeout == pdu_loop.cfg_timeout@, retries == pdu_loop.cfg_retries@
+        ensures r.sent@ == self.pdus@, final(log)@ == old(log)@.push(PubEv::Published)
+    { unimplemented!() }
 }
 impl FrameFut {
     /// R14: `frame.await` on the hand-written future ReceiveFrameFut is modelled as this async stand-in
     #[verifier::external_body]
     pub async fn wait(self) -> (r: Result<ReceivedFrame, Error>)
+        ensures r is Ok ==> echo_shape(self.sent@, (r->Ok_0).pdus@),
+            // (the first datagram, stated without a quantifier for callers that discard the frame)
+            r is Ok && self.sent@.len() > 0 ==> exists|g: RxPdu| #[trigger] answered(self.sent@[0].cmd, g) && g.data.len() == self.sent@[0].len,
+    { unimplemented!() }
+    /// awaiting the response of a frame: the transmit task has been woken for it (otherwise only the PDU timeout ends the wait)
+    #[verifier::external_body]
+    pub async fn wait_l(self, log: &Ghost<Seq<PubEv>>) -> (r: Result<ReceivedFrame, Error>)
+        requires log@.len() > 0, log@.last() is Woken
         ensures r is Ok ==> echo_shape(self.sent@, (r->Ok_0).pdus@),
             // (the first datagram, stated without a quantifier for callers that discard the frame)
             r is Ok && self.sent@.len() > 0 ==> exists|g: RxPdu| #[trigger] answered(self.sent@[0].cmd, g) && g.data.len() == self.sent@[0].len,
